@@ -1,8 +1,8 @@
 _EXEC = dict(
     name="host-execution + consecutive-run reports", harness="c12",
     make=["build/bin/c12", "build/gen/x86_forms.txt", "build/gen/c12_x86_extra.txt", "build/gen/a64_lists.txt"],
-    quick=dict(cases=16000, max_size=100, workers=16, extra_args=["--reps=8", "--states=16"]),
-    thorough=dict(cases=160000, max_size=100, workers=16, extra_args=["--reps=80", "--states=48"], timeout=7200),
+    quick=dict(cases=16000, max_size=100, workers=16, extra_args=["--reps=8", "--states=16", "--encreps=1", "--encstates=3"]),
+    thorough=dict(cases=160000, max_size=100, workers=16, extra_args=["--reps=80", "--states=48", "--encreps=8", "--encstates=12"], timeout=7200),
 )
 _TABLEGEN = dict(
     name="tables vs ISA database (tablegen regeneration diff)", harness="c12", runner="custom", module="c12_tablegen", replay_match=r"tablegen-diff",
@@ -18,17 +18,26 @@ PROP = dict(
           "k0-7, 8 KiB guarded scratch memory); every changed GP byte / vector or mask register / flag / scratch byte must be covered by query_rw_info (GP: "
           "write|extend byte masks, zero-extension bytes zero), every operand / memory / flag set not reported as read is perturbed in a second run and must not "
           "influence any result, SIGILL is allowed only when query_features names a feature the host lacks, some ISA-database form of the mnemonic in the emitted encoding "
-          "class (legacy/VEX/EVEX/XOP) must have all its extensions reported by query_features, and every kRegMem operand of a register-only instance is "
-          "replaced by an rm_size-byte memory operand (validate + assemble + same results). Then rapidcheck-generated (form, choices, state seed) cases. Plus: every "
+          "class (first bytes C4/C5 = VEX, 62 = EVEX, 8F = XOP, else legacy) that admits the operands (operand kinds, register classes, memory/broadcast sizes, registers "
+          "16-31 and {k}{z}{er}{sae} only where the form has them) must have all its extensions reported by query_features, and every kRegMem operand of a register-only "
+          "instance is replaced by an rm_size-byte memory operand (validate + assemble + same results). Encoding-selection sweep: every VEX and EVEX form of every mnemonic "
+          "that has both encodings in the database (348 mnemonics, ~1,500 executable forms) x the applicable shapes {plain: registers 0-15 without decoration, one vector "
+          "register 16-31, {k}, {k}{z}, {1toN}, {er}|{sae}; gather/scatter forms as instantiated} x the assembler's encoding options {none, {vex3}, {vex}, {evex}} (all 8 "
+          "option sets for the plain shape, and for every shape of the 7 'prefer EVEX' instructions vpdpbusd/vpdpbusds/vpdpwssd/vpdpwssds/vpmadd52luq/vpmadd52huq/"
+          "vcvtneps2bf16), options given to the assembler and to both queries, judged like above against the encoding really emitted and executed in 3 (quick) / 12 "
+          "(thorough) states; combinations the assembler refuses or that no database form of the emitted encoding admits are counted and not executed. Then "
+          "rapidcheck-generated (form, choices, state seed, 30%: encoding option x shape) cases. Plus: every "
           "x86 form with a `reg+N` operand and every AArch64 form with an Nx{...} register list (dumped from db/isa_aarch64.json) must report the run through "
           "consecutive_lead_count/kConsecutive; plus one regeneration of the instruction tables (tools/tablegen-x86.js, tablegen-a64.js) on a scratch copy, which must "
-          "be byte-identical. Non-trivial = a form x assignment executed without fault in >= 8 states (or a run form that reached a verdict); distinct = distinct case text"),
+          "be byte-identical. Non-trivial = a form x assignment executed without fault in >= 8 states (encoding-selection cases: in min(8, encstates) states; or a run form "
+          "that reached a verdict); distinct = distinct case text"),
     assumptions=["the host CPU (Sapphire Rapids class: AVX-512 incl. FP16/VNNI/BF16/VBMI2/GFNI/VAES, no AVX10.2/APX/AMX permission) implements the ISA; results the SDM leaves undefined "
                  "(flags marked U in the ISA database, OF of multi-bit rotates/shifts, AF of shifts, bsf/bsr destination for a zero source) are not compared",
                  "implicit operands are passed explicitly in ISA-database order (AsmJit's documented explicit forms); registers the API cannot name (vzeroupper, xlatb, MXCSR, x87/MMX state, stack pointer of push/pop) are excluded and counted",
                  "vector and mask registers are judged per register operand (the property names byte masks only for general-purpose registers); reads are judged per operand flag, as the register allocator uses them",
                  "memory writes are judged as 'some memory operand is reported as written' (the API has no address range)",
-                 "for the feature cross-check AVX512_F is taken to imply AVX2/AVX/FMA/F16C and AVX2 to imply AVX; AVX512_VL is not required for 512-bit or {er}/{sae} forms",
+                 "for the feature cross-check AVX512_F is taken to imply AVX2/AVX/FMA/F16C and AVX2 to imply AVX; AVX512_VL is not required for 512-bit or {er}/{sae} forms; reporting more features than the database form needs is counted (features_superset_of_a_db_form), not flagged",
+                 "{vex}/{vex3}/{evex} are hints (inst.h: 'if possible' / 'when both VEX|EVEX prefixes are available'): the oracle is the prefix the assembler emitted, not the option; a kRegMem replacement that changes the encoding under {vex} (register 16-31 replaced) and then needs a feature the host lacks is counted, not flagged",
                  "AArch64 read/write information cannot be executed here and the database's AArch64 access letters are name-derived (wrong for casp), so only register runs are checked for AArch64",
                  "rep-prefixed string instructions, lock/xacquire/xrelease prefixes and segment overrides are not generated here (encoding: C01)"],
 )
@@ -39,6 +48,6 @@ META = dict(
                 "states plus one perturbation run per location not reported as read and one register/memory pair per kRegMem operand; about 200 AArch64 register-list forms and the "
                 "x86 `reg+N` forms are checked through the API; the generated tables are regenerated once. Not a proof: machine states and operand assignments are sampled; APX, AVX10.2, "
                 "AMX, x87/MMX, privileged, control-flow, stack and system instructions are excluded (counted per class)."),
-    level_note="Trusts the host CPU, hostexec/msc (state load/capture trampoline), the ISA database for operand lists/undefined flags, and about 900 lines of harness (operand construction, coverage/compare logic).",
+    level_note="Trusts the host CPU, hostexec/msc (state load/capture trampoline), the ISA database for operand lists/undefined flags/per-form extension lists, and about 1100 lines of harness (operand construction, form admission, coverage/compare logic).",
     design_ref="DESIGN.md section 4, C12",
 )
